@@ -15,6 +15,7 @@ import (
 	"net/http"
 	"net/textproto"
 	"net/url"
+	"strconv"
 	"strings"
 	"testing"
 
@@ -51,6 +52,8 @@ type dcfg struct {
 	RBuf       int            `json:"rbuf"`
 	WBuf       int            `json:"wbuf"`
 	Seed       int64          `json:"seed"`
+	OnStatus   bool           `json:"on_status_error,omitempty"` // install an OnStatusError callback
+	ViaPackage bool           `json:"via_ws_Dial,omitempty"`     // dial through ws.Dial / ws.DefaultDialer
 }
 
 func (c *dcfg) extraText() string {
@@ -174,6 +177,7 @@ func genDcfg(t *rapid.T, withURL bool) (dcfg, string) {
 	c.RBuf = rapid.SampledFrom([]int{0, 0, 16, 64, 128, 300, 65536}).Draw(t, "rbuf")
 	c.WBuf = rapid.SampledFrom([]int{0, 0, 16, 64, 300, 65536}).Draw(t, "wbuf")
 	c.Seed = rapid.Int64().Draw(t, "seed")
+	c.OnStatus = rapid.Bool().Draw(t, "onstatus")
 	return c, portForm
 }
 
@@ -334,6 +338,20 @@ type outcome struct {
 	keyOK    bool
 	lateW    int
 	panicked interface{}
+	// OnStatusError callback observations
+	cbCalls  int
+	cbStatus int
+	cbReason string
+	cbBytes  []byte
+}
+
+// statusHook installs the recording OnStatusError callback.
+func (o *outcome) statusHook(d *ws.Dialer) {
+	d.OnStatusError = func(status int, reason []byte, resp io.Reader) {
+		o.cbCalls++
+		o.cbStatus, o.cbReason = status, string(reason)
+		o.cbBytes, _ = io.ReadAll(resp)
+	}
 }
 
 // drain collects what is readable after a handshake: exactly the buffered
@@ -371,6 +389,9 @@ func upgradeSeeded(c *dcfg, respond func(key string) []byte, sizes []int, eofWit
 		return respond(o.key)
 	}
 	d := c.dialer()
+	if c.OnStatus {
+		o.statusHook(&d)
+	}
 	if reseed {
 		rand.Seed(c.Seed)
 	}
@@ -432,6 +453,9 @@ func judge(o *outcome, r *respgen.Response, cfg respgen.Config, cl respgen.Class
 	if o.err != nil && o.brNonNil {
 		return fmt.Sprintf("error %v returned together with a non-nil *bufio.Reader", o.err)
 	}
+	if msg := judgeStatusError(o); msg != "" {
+		return msg
+	}
 	verdict := cl.Verdict
 	if verdict == respgen.MustFail && hx.Known(sigFold) {
 		if r2, had := withoutFoldOnly(r); had && respgen.Classify(r2, cfg).Verdict != respgen.MustFail {
@@ -483,6 +507,66 @@ func judge(o *outcome, r *respgen.Response, cfg respgen.Config, cl respgen.Class
 	if !bytes.Equal(o.after, o.sent[end:]) {
 		return fmt.Sprintf("bytes after the head: server sent %d (%x), buffer (%d) + connection gave %d (%x)",
 			len(o.sent)-end, clip(o.sent[end:]), o.buffered, len(o.after), clip(o.after))
+	}
+	return ""
+}
+
+// judgeStatusError checks how a non-101 status is reported. When the status
+// line is complete, of the plain form "HTTP/1.x SP digits SP reason" with a
+// valid version and a status value other than 101, the error has to be a
+// ws.StatusError carrying exactly that value and its text has to mention it;
+// an installed OnStatusError callback is called once with the same status, the
+// reason phrase, and a reader that yields the status line followed by the
+// rest of what the server sent. In every other case a StatusError / callback
+// may only appear with a status that is in the response line.
+func judgeStatusError(o *outcome) string {
+	nl := bytes.IndexByte(o.sent, '\n')
+	se, isSE := o.err.(ws.StatusError)
+	if nl < 0 {
+		if isSE || o.cbCalls > 0 {
+			return fmt.Sprintf("status error %v / callback reported although the status line never ended", o.err)
+		}
+		return ""
+	}
+	line := strings.TrimSuffix(string(o.sent[:nl]), "\r")
+	parts := strings.SplitN(line, " ", 3)
+	expect := -1 // the status that has to be reported, if determined
+	if len(parts) == 3 && respgen.ClassifyVersion(parts[0]) == "" && len(parts[1]) <= 9 && respgen.ClassifyStatus(parts[1]) == "fail:status:value" {
+		expect, _ = strconv.Atoi(parts[1])
+	}
+	if expect >= 0 && !isSE {
+		return fmt.Sprintf("status line %q: error is %T %q, want ws.StatusError(%d)", line, o.err, fmt.Sprint(o.err), expect)
+	}
+	if isSE {
+		if len(parts) < 2 || respgen.ClassifyStatus(parts[1]) != "fail:status:value" {
+			return fmt.Sprintf("ws.StatusError(%d) for the status line %q", int(se), line)
+		}
+		if want := strings.TrimLeft(parts[1], "0"); strconv.Itoa(int(se)) != want && !(want == "" && se == 0) {
+			return fmt.Sprintf("ws.StatusError(%d) for the status line %q", int(se), line)
+		}
+		if !strings.Contains(se.Error(), strconv.Itoa(int(se))) {
+			return fmt.Sprintf("StatusError(%d).Error() = %q does not mention the status", int(se), se.Error())
+		}
+	}
+	if o.cbCalls > 1 || (o.cbCalls == 1 && !isSE) {
+		return fmt.Sprintf("OnStatusError called %d times, error %v", o.cbCalls, o.err)
+	}
+	if o.cbCalls == 1 {
+		if o.cbStatus != int(se) {
+			return fmt.Sprintf("OnStatusError got status %d, the error says %d", o.cbStatus, int(se))
+		}
+		if len(parts) == 3 && o.cbReason != parts[2] {
+			return fmt.Sprintf("OnStatusError got reason %q, the response line says %q", o.cbReason, parts[2])
+		}
+		rest := o.sent[nl+1:]
+		ok := bytes.HasPrefix(o.cbBytes, []byte(line)) && bytes.HasSuffix(o.cbBytes, rest)
+		if ok {
+			mid := string(o.cbBytes[len(line) : len(o.cbBytes)-len(rest)])
+			ok = mid == "\r\n" || mid == "\n"
+		}
+		if !ok {
+			return fmt.Sprintf("OnStatusError reader gave %q, the server sent %q", clipStr(o.cbBytes, 200), clipStr(o.sent, 200))
+		}
 	}
 	return ""
 }
@@ -783,10 +867,22 @@ func dialOnce(c *dcfg, r *respgen.Response, sizes []int) (rec *dialRec, conn net
 		rec.wrapped = &wrapConn{conn}
 		return rec.wrapped
 	}
+	if c.OnStatus {
+		o.statusHook(&d)
+	}
 	rand.Seed(c.Seed)
 	var br *bufio.Reader
 	func() {
 		defer func() { o.panicked = recover() }()
+		if c.ViaPackage {
+			// ws.Dial is DefaultDialer.Dial: configure the package variable for
+			// the duration of this call (tests of this package run sequentially)
+			saved := ws.DefaultDialer
+			defer func() { ws.DefaultDialer = saved }()
+			ws.DefaultDialer = d
+			conn, br, o.hs, o.err = ws.Dial(context.Background(), c.URL)
+			return
+		}
 		conn, br, o.hs, o.err = d.Dial(context.Background(), c.URL)
 	}()
 	o.written, o.sent, o.lateW = peer.Written, peer.Data, peer.LateWrites
@@ -866,6 +962,10 @@ func TestDial(t *testing.T) {
 		c, portForm := genDcfg(t, true)
 		r := respgen.Gen(t, "resp", c.Req, respgen.Opts{ValidOnly: rapid.IntRange(0, 3).Draw(t, "validonly") > 0})
 		sizes := gen.Chunks(t, "chunks")
+		c.ViaPackage = rapid.IntRange(0, 3).Draw(t, "via_ws_Dial") == 0
+		if c.ViaPackage {
+			hx.Class("dial/via-ws.Dial")
+		}
 		hx.Eval()
 		if u, err := url.ParseRequestURI(c.URL); err == nil {
 			hx.Class(fmt.Sprintf("dial/%s/port=%s/v6=%v", u.Scheme, portForm, strings.HasPrefix(u.Host, "[")))
@@ -895,7 +995,7 @@ func TestDialURLGrid(t *testing.T) {
 			for _, port := range []string{"", ":80", ":443", ":8080", ":1", ":65535"} {
 				for _, path := range append(append([]string(nil), pathPool...), hardPaths...) {
 					for _, q := range append([]string{"", "?", "?x=1&y=%20"}, hardQueries...) {
-						c := dcfg{URL: scheme + "://" + host + port + path + q, Seed: int64(n)}
+						c := dcfg{URL: scheme + "://" + host + port + path + q, Seed: int64(n), ViaPackage: n%5 == 0}
 						n++
 						if msg := checkDial(&c, valid, nil); msg != "" {
 							hx.Failf(t, c, "%s", msg)
@@ -932,7 +1032,7 @@ func runFixed(t *testing.T, c *dcfg, r *respgen.Response, sizes []int) bool {
 // digits —, every byte value at every position of "101", and multiples of
 // 2^32 / 2^63 / 2^64 plus 101.
 func TestStatusTokenGrid(t *testing.T) {
-	c := dcfg{URL: "ws://example.org/", Seed: 1}
+	c := dcfg{URL: "ws://example.org/", Seed: 1, OnStatus: true}
 	n := 0
 	try := func(tok string) bool {
 		n++
@@ -1690,4 +1790,31 @@ func TestDefaultTLSClientServerName(t *testing.T) {
 		return map[string]interface{}{"test": "default TLS client", "hosts": hosts, "configs": []string{"nil", "shared empty", "fixed ServerName"}}
 	})
 	hx.Part("default TLS client: 4 config kinds x 5 consecutive wss dials to different hosts", int64(n), true)
+}
+
+// The rejection error's accessors (the server-side counterpart of StatusError):
+// StatusCode() is the status given with RejectionStatus, Error() the reason.
+func TestRejectionErrorAccessors(t *testing.T) {
+	if !hx.Mine(4) {
+		return
+	}
+	n := 0
+	for _, code := range []int{0, 400, 401, 403, 404, 426, 500, 503, 999} {
+		for _, reason := range []string{"", "no", "bad handshake: 400"} {
+			for _, swap := range []bool{false, true} {
+				opts := []ws.RejectOption{ws.RejectionStatus(code), ws.RejectionReason(reason)}
+				if swap {
+					opts[0], opts[1] = opts[1], opts[0]
+				}
+				n++
+				err := ws.RejectConnectionError(opts...)
+				rej, ok := err.(*ws.ConnectionRejectedError)
+				if !ok || rej.StatusCode() != code || rej.Error() != reason {
+					hx.Failf(t, map[string]interface{}{"code": code, "reason": reason}, "RejectConnectionError(status %d, reason %q): %T StatusCode()=%d Error()=%q", code, reason, err, rej.StatusCode(), rej.Error())
+					return
+				}
+			}
+		}
+	}
+	hx.EvalN(n)
 }
